@@ -41,7 +41,7 @@ impl C07 {
       out.fail(env, viol(sub, "weekday", case, &k, c.fmt(i), ew.to_string(), format!("SolarDay {} JulianDay {}", w1, w2)));
     }
     // a Julian date carrying a time of day belongs to the civil day that contains it
-    for f in [0.25f64, 0.5, 0.75, 0.999] {
+    for f in [0.25f64, 0.5, 0.75, 0.999, 0.9997, 0.99999, 0.00001] {
       let w = JulianDay::from_julian_day(jdn as f64 - 0.5 + f).get_week().get_index() as i64;
       if w != ew {
         out.fail(env, viol(sub, "weekday_of_julian_date_with_time", case, &k, format!("{} + {} day", c.fmt(i), f), ew.to_string(), w.to_string()));
@@ -220,6 +220,25 @@ impl C07 {
     }
     if p != day_pillar(jdn) {
       out.fail(env, viol("lunar", "pillar_of_lunar_date", case, &k, format!("L({},{},{})", y, m, d), pillar_name(day_pillar(jdn)), pillar_name(p)));
+    }
+    // the same lunar date as its month lists it: pillar, sexagenary-day view, weekday and civil day of the listed item
+    if (d == 1 || d == 15 || d == mo.get_day_count() as i64) && cal().index_of_jdn(jdn).is_some() && !(1729820..=1729900).contains(&jdn) {
+      match guard(|| {
+        let it = mo.get_days()[(d - 1) as usize].clone();
+        (it.get_sixty_cycle().get_index() as i64, it.get_sixty_cycle_day().get_sixty_cycle().get_index() as i64, it.get_week().get_index() as i64, ymd(&it.get_solar_day()))
+      }) {
+        Ok((a, b, w, sdv)) => {
+          let ix = cal().index_of_jdn(jdn).unwrap();
+          if a != day_pillar(jdn) || b != day_pillar(jdn) || w != weekday(jdn) || sdv != cal().ymd(ix) {
+            out.fail(env, viol("lunar", "listed_lunar_day_views", case, &k, format!("item {} of LunarMonth({},{}).get_days()", d - 1, y, m), format!("{} weekday {} on {}", pillar_name(day_pillar(jdn)), weekday(jdn), cal().fmt(ix)), format!("lunar route {} sexagenary-day route {} weekday {} on {}", pillar_name(a), pillar_name(b), w, fmt_ymd(sdv))));
+          }
+        }
+        Err(e) => {
+          if (1..=9998).contains(&y) {
+            out.fail(env, viol("lunar", "listed_lunar_day_panics", case, &k, format!("item {} of LunarMonth({},{}).get_days()", d - 1, y, m), pillar_name(day_pillar(jdn)), e));
+          }
+        }
+      }
     }
   }
 }
